@@ -8,9 +8,10 @@
 //                                                reference is a well-formed occurrence with that content and canonical
 //                                                ToString, every top-level well-formed occurrence is reported
 //   RefsManager::Resolve / get / OutputRefs      under a small fixed term context: ranges ordered and delimiting the recorded
-//                                                resolution, resolved text = model; OutputRefs(Resolve(x)) parses to the same
-//                                                reference list (skipped when a candidate has no documented reading)
-//   (every second text, chosen by a hash of the text:)
+//                                                resolution, resolved text = model; OutputRefs(Resolve(x)) = x up to canonical
+//                                                spelling and (every second text) parses to the same reference list (both
+//                                                skipped when a candidate has no documented reading)
+//   (the other half of the texts, chosen by a hash of the text:)
 //   ManagedText InitFrom / Str / Raw / Referals / TranslateRaw   Raw kept, Str = Resolve, Referals = entity names of the
 //                                                references found, renaming = gaps and unchanged references byte-identical,
 //                                                renamed references in canonical spelling
@@ -58,6 +59,9 @@ std::string knownForWholeParse(const std::string& text) {
 }
 
 }  // namespace
+
+// see harness/props/C17.cpp: shallower allocation stacks keep ASan's stack depot small (ASAN_OPTIONS still takes precedence)
+extern "C" const char* __asan_default_options() { return "malloc_context_size=8"; }
 
 extern "C" int LLVMFuzzerTestOneInput(const uint8_t* data, size_t size) {
   glue::resetTextEnvironment();
@@ -127,9 +131,20 @@ extern "C" int LLVMFuzzerTestOneInput(const uint8_t* data, size_t size) {
         fuzz::violation("resolved-range", "reference " + std::to_string(i) + " recorded at " + glue::rng(p.start, p.finish) + " want " + glue::rng(model.ranges[i].first, model.ranges[i].second));
     }
   }
+  // write the references back: the original text up to the canonical spelling of every reference
+  const bool stageManaged = (fuzz::fnv1a(reinterpret_cast<const uint8_t*>(text.data()), text.size()) & 1) == 0;
   const std::string back = mgr.OutputRefs(resolved);
   // (an undocumented candidate - e.g. a name containing a brace - may be re-spelled into something that scans differently)
   if (!sc.unspecified) {
+    std::vector<m6::Seg> segs;
+    size_t cur = 0;
+    for (const auto& o : E) { segs.push_back(m6::litSeg(text.substr(cur, o.bstart - cur))); segs.push_back(m6::refSeg(o.p)); cur = o.bfinish; }
+    segs.push_back(m6::litSeg(text.substr(cur)));
+    const auto d = m6::matchSegs(back, segs);
+    if (!d.empty()) fuzz::violation("write-back", "OutputRefs(Resolve('" + glue::esc(text) + "')) = '" + glue::esc(back) + "': " + d);
+  }
+  // ... and it parses to the same reference list (one more extraction: done for the texts that skip the ManagedText stage)
+  if (!sc.unspecified && !stageManaged) {
     const auto again = Reference::ExtractAll(back);
     if (again.size() != found.size()) fuzz::violation("write-back-reparse", "OutputRefs(Resolve(x)) = '" + glue::esc(back) + "' has " + std::to_string(again.size()) + " references, x has " + std::to_string(found.size()));
     for (size_t i = 0; i < again.size(); ++i) {
@@ -147,7 +162,7 @@ extern "C" int LLVMFuzzerTestOneInput(const uint8_t* data, size_t size) {
 
   // managed text: one more Resolve and two more extractions of the same text - done for every second text (chosen by a
   // hash of the text, so the choice is a deterministic function of the input) to keep 150k executions within the quick tier
-  if (fuzz::fnv1a(reinterpret_cast<const uint8_t*>(text.data()), text.size()) & 1) return 0;
+  if (!stageManaged) return 0;
   st.label("managed-text-stage");
   ManagedText mt;
   mt.InitFrom(text, *ctx);
